@@ -92,6 +92,8 @@ def run(ctx):
         tp = os.path.join(ctx.scratch, "stress-%s.ndjson" % aware)
         args = ["-mode", "stress", "-trace", tp, "-n", ctx.pick(600, 6000), "-workers", ctx.pick(6, 12)] + (["-ctxaware"] if aware else [])
         s, _ = ctx.drive(drv, args, name="c49-stress-ctxaware" if aware else "c49-stress", timeout=7200)
+        if not os.path.exists(tp) or os.path.getsize(tp) == 0:      # the driver died (reported as a violation by ctx.drive)
+            continue
         ok, consumed, total, r = ctx.validate("net/RPCTrace", tp, cfg="net/RPCTraceAsCoded", ntraces=s["traces"], timeout=7200,
                                               silent_steps=True, dfs=True, name="RPCTraceAsCoded")
         if not ok:
